@@ -1,6 +1,6 @@
 (* Tie theorems for the floors and the ept_map REPLY side of _epm.py (Floor and its registered subclasses,
    EptMapResult.pack / unpack) against Model/Epm.v; listed under C12 and C18.  Conventions as in Proofs/Flow_rpc_pdu.v /
-   Flow_rpc_bind.v.  A floor object is the model's `floor` record: kind (typed fields of a known class), protocol and
+   Flow_rpc_bind_ctx.v.  A floor object is the model's `floor` record: kind (typed fields of a known class), protocol and
    the raw lhs / rhs caches; `self.protocol` of a known class is its class default (floor_protocol).
    EptMapResult.unpack has two nested `for _ in range(count)` loops (towers, floors) with the count guard in front;
    the tie holds whenever the model does not run out of fuel (C18_linear: fuel > length suffices).
